@@ -49,6 +49,8 @@ type lifeAction struct {
 
 // life is the lifecycle world shared by C04, C05 and C23.
 type life struct {
+	qStarted, qShutdown map[string]int
+	builtIntoShutdown   map[string]bool
 	qLive               map[string]int // message queues alive, by remote peer
 	qMaxLive            map[string]int
 	memLimited          bool
@@ -100,6 +102,26 @@ func (s *life) Build(w *World) {
 			}
 		case "messagequeue.exited":
 			s.qLive[name]--
+		case "messagequeue.shutdown":
+			s.qShutdown[name]++
+		}
+		if site == "messagequeue.started" {
+			s.qStarted[name]++
+		}
+		w.mu.Unlock()
+	}
+	// the input class of the recorded C15/C16 finding, seen from the node: something was built into a message
+	// queue after every queue instance started for that peer had been told to shut down
+	s.qStarted, s.qShutdown, s.builtIntoShutdown = map[string]int{}, map[string]int{}, map[string]bool{}
+	w.OnYieldSite = func(site, detail, node string) {
+		if site != "messagequeue.afterBuild" {
+			return
+		}
+		name := w.Net.Name(peer.ID(detail))
+		w.mu.Lock()
+		if s.qStarted[name] > 0 && s.qShutdown[name] >= s.qStarted[name] {
+			s.builtIntoShutdown[node+">"+name] = true
+			w.Probes["built-into-queue-shutting-down"]++
 		}
 		w.mu.Unlock()
 	}
@@ -108,6 +130,17 @@ func (s *life) Build(w *World) {
 		if t.Chance(300) {
 			w.Yields[site] = true
 		}
+	}
+	// lock-yield build: in a third of the runs a subset of the responder's sending path also yields before every
+	// lock acquisition made with no instrumented lock held (chosen from the tape's digest: no draw)
+	if d := t.Digest(); d%3 == 0 {
+		var on []string
+		for i, f := range lifeLockYieldFiles {
+			if (d>>(8+uint(i)))&1 == 1 {
+				on = append(on, f)
+			}
+		}
+		w.EnableLockYields(on...)
 	}
 	if s.faults {
 		w.Net.SendFaults = []string{"fail", "acklost"}
@@ -563,7 +596,20 @@ func (s *life) finalC04(w *World) *Violation {
 					// the queued Cancel shared its slot in the outgoing message with a later
 					// request of the same ID, which replaced it
 					sig += ":superseded-by-" + t
+					w.mu.Lock()
+					if t == "new" && (w.Yields["lock:messagequeue/messagequeue.go"] || w.Yields["lock:peermanager/peermanager.go"]) {
+						// only a run in which a goroutine can be held between two lock acquisitions of the sending
+						// path can show this; a plain run showing superseded-by-new is the old defect come back
+						sig += ":overtaken-at-a-lock"
+					}
+					w.mu.Unlock()
 				}
+				w.mu.Lock()
+				if s.builtIntoShutdown[r.Node.Name+">"+w.Net.Name(r.To)] {
+					// input class of the recorded C15/C16 finding: the Cancel was built into a queue already told to shut down
+					sig += ":built-into-queue-shutting-down"
+				}
+				w.mu.Unlock()
 				return &Violation{Property: "C04", Rule: "R3", Signature: sig, Detail: fmt.Sprintf("%s cancelled while the requestor still held it, but no Cancel for it was put on the wire nor reported to the network-error listener", r.Label)}
 			}
 		}
@@ -785,7 +831,13 @@ func (s *life) finalC05(w *World) *Violation {
 		case nCompleted == 1 && nCancelled == 1:
 			return &Violation{Property: "C05", Rule: "R1", Signature: "completed-and-cancelled", Detail: fmt.Sprintf("request %s reported both completed (status %d) and cancelled", lbl, completedStatus)}
 		case nCompleted == 0 && nCancelled == 0 && nNetErr == 0:
-			return &Violation{Property: "C05", Rule: "R1", Signature: "no-outcome:" + s.respState(k), Detail: fmt.Sprintf("request %s from %s reached no outcome: not completed, not cancelled, no network error; %s", lbl, k.peer, s.descr)}
+			sig := "no-outcome:" + s.respState(k)
+			w.mu.Lock()
+			if s.builtIntoShutdown["B>"+k.peer] {
+				sig += ":built-into-queue-shutting-down"
+			}
+			w.mu.Unlock()
+			return &Violation{Property: "C05", Rule: "R1", Signature: sig, Detail: fmt.Sprintf("request %s from %s reached no outcome: not completed, not cancelled, no network error; %s", lbl, k.peer, s.descr)}
 		}
 		// R2 no state left
 		if st, ok := s.respStateOf(k); ok {
@@ -859,7 +911,16 @@ func (s *life) finalC23(w *World) *Violation {
 			return &Violation{Property: "C23", Rule: "R3", Signature: "stats-requests-nonzero:" + n.Name, Detail: fmt.Sprintf("%s after all requests ended: %+v %+v", n.Name, st.OutgoingRequests, st.IncomingRequests)}
 		}
 		if st.OutgoingResponses.TotalAllocatedAllPeers != 0 || st.OutgoingResponses.TotalPendingAllocations != 0 {
-			return &Violation{Property: "C23", Rule: "R3", Signature: "stats-memory-nonzero:" + n.Name, Detail: fmt.Sprintf("%s after all requests ended: %+v", n.Name, st.OutgoingResponses)}
+			sig := "stats-memory-nonzero:" + n.Name
+			w.mu.Lock()
+			for k := range s.builtIntoShutdown {
+				if strings.HasPrefix(k, n.Name+">") {
+					sig += ":built-into-queue-shutting-down"
+					break
+				}
+			}
+			w.mu.Unlock()
+			return &Violation{Property: "C23", Rule: "R3", Signature: sig, Detail: fmt.Sprintf("%s after all requests ended: %+v", n.Name, st.OutgoingResponses)}
 		}
 	}
 	return nil
@@ -924,3 +985,7 @@ func netErrBefore(b *Node, id graphsync.RequestID, peerName string) bool {
 	}
 	return false
 }
+
+// lifeLockYieldFiles: the files of the whole-node lifecycle world that the lock-yield build instruments (the
+// sending path; not the traverser, whose state mutex is handed from one goroutine to another).
+var lifeLockYieldFiles = []string{"messagequeue/messagequeue.go", "responsemanager/responseassembler/responseassembler.go", "responsemanager/responseassembler/peerlinktracker.go", "peermanager/peermanager.go", "notifications/publisher.go", "allocator/allocator.go"}
